@@ -20,7 +20,7 @@ CLAIMED.update({
     "C17": dict(
         engine="A",
         technique="deterministic simulation: differential oracle between a long-lived subject process and pristine forked fresh-process children (alone / same batch / permuted / plus healthy / later in history / after restart), over seeded histories with faults",
-        text="For sampled steps the same operation is evaluated in pristine forked children on the artifact alone, the same batch, a permutation and the batch plus healthy artifacts, and compared with the subject's verdict after its history; inside the subject every verdict of an individually judging check on the same artifact is compared across all steps. Individually judging checks must agree exactly (entry and evidence); jointly judging checks must agree under permutation/healthy additions and be monotone with respect to a fresh process where a cached table may legally find more. Histories leave caches, tables and singleton checks in different states (interleaved curve operations, restarts, healed allocation/resource faults). Known finding F5 is reported as KNOWN-FINDING.",
+        text="For sampled steps the same operation is evaluated in pristine forked children on the artifact alone, the same batch, a permutation and the batch plus healthy artifacts, and compared with the subject's verdict after its history; inside the subject every verdict of an individually judging check on the same artifact is compared across all steps. Individually judging checks must agree exactly (entry and evidence); jointly judging checks must agree under permutation/healthy additions and be monotone with respect to a fresh process where a cached table may legally find more. Histories leave caches, tables and singleton checks in different states (interleaved curve operations, restarts, healed allocation/resource faults). Batch-scale profiles push every per-call pool past plausible internal chunk sizes (more than 4 096 moduli in one aggregate call; 2 600..5 000 single-signature issuers on one curve around a few biased groups). Known finding F5 is reported as KNOWN-FINDING.",
         note="Trusts: fork gives a pristine library state (asserted at start-up); only non-marginal planted weaknesses are used so LLL order effects cannot flip verdicts; budgeted sampling of fresh queries.",
         design_ref="DESIGN.md §4 C17"),
     "C07": dict(
@@ -32,7 +32,7 @@ CLAIMED.update({
     "C18": dict(
         engine="A",
         technique="deterministic simulation: crash-freedom invariant at every step of seeded histories over degenerate-heavy pools, including the first call after healed seam faults and after restarts",
-        text="At every check/check_all step on a batch inside the statement's domain (any size incl. 0, duplicates, unknown/binary curve ids, coordinates empty/zero/p/huge/off-curve, moduli prime/even/square/power of two/odd length/64-bit, any exponent, r,s in [1,n-1], any hash length, invalid issuer keys) the call must return a bool without raising and within a per-call watchdog, in a fresh process, after any history, after restart and after a healed resource/storage/allocation fault (including MemoryError at an arbitrary function entry of an earlier call). Input coverage is sampling, not enumeration.",
+        text="At every check/check_all step on a batch inside the statement's domain (any size incl. 0, duplicates, unknown/binary curve ids, coordinates empty/zero/p/huge/off-curve, moduli prime/even/square/power of two/odd length/64-bit, any exponent, r,s in [1,n-1] incl. malleated twins (r, n-s) and reused nonces under one issuer key, any hash length, invalid issuer keys) the call must return a bool without raising and within a per-call watchdog, in a fresh process, after any history, after restart and after a healed resource/storage/allocation fault (including MemoryError at an arbitrary function entry of an earlier call). Input coverage is sampling, not enumeration.",
         note="Trusts: the well-formedness predicate of the generator mirrors the statement's domain; calls made while a fault fires are not judged.",
         design_ref="DESIGN.md §4 C18"),
     "C10": dict(
